@@ -228,7 +228,12 @@ def build_env(rng_choice, kind, qs, headers, path_extra, markers, as_json, accep
         headers['Accept'] = accept
     kw = dict(qs=qs, headers=headers)
     target = 'app'
-    if kind == '404':
+    if kind == '404' and path_extra and rng_choice < 0.35:
+        # a path that urljoin() takes for an absolute URL with a malformed host: building request.url fails
+        # (ValueError); whatever page results (the 404 page or the last-resort page) must still be clean
+        env = make_environ('GET', '/' + ('http://[' if rng_choice < 0.2 else 'https://[::1/') + path_extra.lstrip('/'), **kw)
+        exp = (404, 500)
+    elif kind == '404':
         env = make_environ('GET', '/nothing-here' + path_extra, **kw)
         exp = 404
     elif kind == '405':
@@ -296,6 +301,12 @@ def run_kind(ctx, app, lr_app, rng, i, kind, as_json):
     if r.escaped is not None or r.sr_calls == 0:
         ctx.violation('error-response-broken', f'{kind}: escaped={r.escaped!r}', wit)
         return
+    if isinstance(exp, tuple):
+        ctx.count('paths_for_which_the_request_url_cannot_be_built')
+        if r.code in exp:
+            exp = r.code
+            if r.code == 500:
+                kind = 'last'
     if r.code != exp:
         # request data changed the kind of answer (e.g. a format error turned a 404 into a 500)
         ctx.violation(f'request-data-changed-error-kind:{exp}->{r.code}', f'{kind}: expected {exp}, got {r.status}; qs={qs!r} headers={headers!r}: {r.errors[-300:]}', wit)
